@@ -2,6 +2,7 @@ package otto
 
 import (
 	"reflect"
+	"strconv"
 )
 
 func (rt *runtime) newGoMapObject(value reflect.Value) *object {
@@ -94,7 +95,16 @@ func goMapEnumerate(obj *object, all bool, each func(string) bool) {
 	goObj := obj.value.(*goMapObject)
 	keys := goObj.value.MapKeys()
 	for _, key := range keys {
-		if !each(toValue(key).String()) {
+		name := toValue(key).String()
+		// Integer keys are named by their exact digits: above 2^53 the number's
+		// text is that of the nearest double, which names no key (or another one).
+		switch key.Kind() {
+		case reflect.Int, reflect.Int8, reflect.Int16, reflect.Int32, reflect.Int64:
+			name = strconv.FormatInt(key.Int(), 10)
+		case reflect.Uint, reflect.Uint8, reflect.Uint16, reflect.Uint32, reflect.Uint64:
+			name = strconv.FormatUint(key.Uint(), 10)
+		}
+		if !each(name) {
 			return
 		}
 	}
